@@ -226,3 +226,12 @@ META["C05"] = dict(
          "hook, a process death, an ASan report or a confirmed hang is a violation with the source location as signature.",
     note="Reach behind the Merkle/FRI checks needs transcript-consistent data; see DESIGN.md section 7 for the limit.",
 )
+META["C03"] = dict(
+    technique="adversarial transcript monitor: transcript replay + DEEP/FRI-consistent substitutions into honest proofs, each forgery validated and localized with check-skipping failpoints",
+    text="A replayer recomputes every challenge from the proof with public APIs; the surgeon then substitutes opened trace, "
+         "constraint, FRI-layer and remainder data chosen so that the DEEP composition and every fold are unchanged at the "
+         "queried positions, so only the commitment checks can tell. With the failpoint hook the monitor shows (a) the "
+         "forgery is accepted when the targeted checks are off, (b) each remaining single check rejects it with its own "
+         "error, (c) the unmodified verifier rejects it.",
+    note="Hooks: winter_utils::verif failpoints. A forgery needing more than the listed substitution classes is out of reach.",
+)
